@@ -91,6 +91,11 @@ def _ownership(ck, f, expr, roles, rule):
         gc, gk = got[side]
         if coord not in gc.lower():
             probs.append('the %s bound is compared with `%s`, expected the %s' % (side, gc, 'longitude' if coord == 'lon' else 'latitude'))
+        elif gc not in f.params:
+            # the point itself, not a shifted / padded copy of it: a tolerance added on one side makes two neighbouring tiles claim the
+            # points within it, and which of the two is returned then depends on the order the tiles are stored in
+            probs.append('the %s bound is compared with `%s`, not with the coordinate `%s` itself: a point within that allowance of a shared '
+                         'edge lies in both neighbouring tiles (or in neither)' % (side, gc[:50], [p_ for p_ in f.params if coord in p_.lower()][:1]))
         if gk is not k:
             sym_ = {ast.GtE: '>=', ast.Lt: '<', ast.Gt: '>', ast.LtE: '<='}
             probs.append('%s bound uses `%s`, ownership is %s-%s (`%s`): a point on a shared edge is owned by %s tiles' % (
@@ -338,7 +343,10 @@ def rule_bounds(ck):
     r = [x for x in returns(b) if x.value is not None]
     o = ck.ob('C17-D4.bbox', b, r[0].value if r else 'bbox', r[0] if r else b.node)
     want = '(min(self.bounds[:, 0]), max(self.bounds[:, 2]), min(self.bounds[:, 1]), max(self.bounds[:, 3]))'
-    (o.ok() if r and u(r[0].value) == want else o.fail('get_bbox is `%s`, expected (min west, max east, min south, max north)' % (u(r[0].value) if r else '?')))
+    wrong = [x for x in r if u(x.value) != want]
+    (o.ok() if r and not wrong else o.fail('get_bbox returns `%s`, expected (min west, max east, min south, max north) of the tile bounds on every path (other '
+                                           'attributes - the cell origins kept by get_cartesian - lack the east / north edges of the last cells)'
+                                           % (u(wrong[0].value)[:80] if wrong else '?')))
     v = P.func(R + 'compute_vertex_bounds')
     r = [x for x in returns(v) if x.value is not None]
     ex = Expander(P, v)
